@@ -322,9 +322,9 @@ class TcpInverterProtocol(InverterProtocol, asyncio.Protocol):
                 self.response_future.set_result(data)
                 self._retry = 0
             else:
+                # not an answer of the inverter (so no rejection either): drop the connection and let the
+                # request be retried / fail the same way as an unanswered one
                 logger.debug("Received invalid response: %s", data.hex())
-                self.response_future.set_exception(RequestRejectedException())
-                self._retry = 0
                 self._close_transport()
         except PartialResponseException as ex:
             logger.debug("Received response fragment (%d of %d): %s", ex.length, ex.expected, data.hex())
